@@ -230,17 +230,28 @@ def run_contract(name, fn, src_root=None, max_paths=200000, time_limit_s=900, ti
             res.covers[c] = res.covers.get(c, 0) + 1
         for clause in h.struct_checked:
             failed = [t for (c, t) in h.struct_failures if c == clause]
-            res.obligations.append(
-                {
-                    "clause": clause,
-                    "path": sig,
-                    "kind": "structural",
-                    "status": "refuted" if failed else "discharged",
-                    "backend": "engine",
-                    "time_s": 0.0,
-                    "detail": failed[0] if failed else None,
-                }
-            )
+            rec = {
+                "clause": clause,
+                "path": sig,
+                "kind": "structural",
+                "status": "refuted" if failed else "discharged",
+                "backend": "engine",
+                "time_s": 0.0,
+                "detail": failed[0] if failed else None,
+            }
+            if failed and model_hook is not None:
+                # an input on which this path is taken: any model of the path condition
+                try:
+                    sv = z3.Solver()
+                    sv.set("timeout", timeout_ms)
+                    for f in ctx.pc:
+                        sv.add(f)
+                    if sv.check() == z3.sat:
+                        rec["model"] = _model_to_text(sv.model())
+                        rec["witness"] = model_hook(h, ctx, sv.model(), clause, {})
+                except Exception as e:
+                    rec["witness_error"] = repr(e)
+            res.obligations.append(rec)
         for clause, formula, meta in h.obligations:
             status, dt, model, backend = discharge(ctx.pc, formula, timeout_ms)
             res.solver_s += dt
